@@ -21,7 +21,10 @@ SPEC = {
     "rule": ("documents generated from a derive-built schema (objects, interface, union, list and nullable fields, raw and typed "
              "arguments with schema defaults): aliases, repeated fields, inline fragments and fragment spreads with every "
              "admissible type condition, @skip/@include with literals and variables (provided, defaulted, omitted), arguments with "
-             "nested variables; every resolver records its views and the invocation tree is compared; distinct by full case text; "
+             "nested variables, a custom field directive, the query and the mutation root, with and without an extension installed; "
+             "one stream in Fast validation mode with repeated/malformed @skip/@include, unknown directives, undeclared variables "
+             "in conditions and fragments on unrelated types; every resolver records its views and the invocation tree is compared "
+             "together with the pruned operation/fragments held by QueryEnv; distinct by full case text; "
              "non-trivial = more than one resolver ran and the document has a fragment or a directive"),
     "trusted": ["harness: event log -> invocation tree (events are nested in time because every resolver is immediately ready), "
                 "registry dump (field types, implements, argument defaults), document/value printers",
